@@ -488,3 +488,63 @@ theorem trace_accept {U : Type} [DecidableEq U] (f : Totp → Int → Int)
       · exact hlt
 
 end KM.RateLimit
+
+namespace KM.RateLimit
+
+/-! ### pruning an entry nobody can tell apart from the zero value -/
+
+/-- two limiter states that behave alike from time `t` on -/
+def Sim (t : Int) (s1 s2 : Totp) : Prop :=
+  s1.lastSuccCounter = s2.lastSuccCounter ∧ s1.failCount = s2.failCount ∧
+  (s1.lastCheck = s2.lastCheck ∨ (s1.lastCheck + spacingNs ≤ t ∧ s2.lastCheck + spacingNs ≤ t)) ∧
+  (s1.lockoutExp = s2.lockoutExp ∨ (s1.lockoutExp ≤ t ∧ s2.lockoutExp ≤ t)) ∧
+  (s1.lastFail = s2.lastFail ∨ s1.failCount = 0)
+
+theorem sim_step {t : Int} {s1 s2 : Totp} (a : Attempt) (h : Sim t s1 s2) (ht : t ≤ a.now) :
+    (step s1 a).2 = (step s2 a).2 ∧ Sim a.now (step s1 a).1 (step s2 a).1 := by
+  obtain ⟨hs, hfc, hlc, hle, hlf⟩ := h
+  have hfresh : fresh s1 a = fresh s2 a := by unfold fresh; rw [hs]
+  have hfcn : fcNext s1 a.now = fcNext s2 a.now := by
+    unfold fcNext fcBase
+    rcases hlf with hlf | hlf
+    · rw [hlf, hfc]
+    · have : s2.failCount = 0 := by omega
+      rw [hlf, this]
+      split <;> split <;> rfl
+  have hln : lockNext s1 a.now = lockNext s2 a.now ∨ (s1.lockoutExp ≤ a.now → s2.lockoutExp ≤ a.now →
+      lockNext s1 a.now ≤ a.now ∧ lockNext s2 a.now ≤ a.now) := by
+    unfold lockNext
+    rw [hfcn]
+    split
+    · left; rfl
+    · right
+      intro _ _
+      unfold lockBase
+      constructor <;> split <;> omega
+  unfold step
+  rcases stepWith_cases lockNext s1 a with ⟨c1, e1⟩ | ⟨c1, c2, e1⟩ | ⟨c1, c2, c3, e1⟩ |
+      ⟨c1, c2, c3, c4, e1⟩ | ⟨c1, c2, c3, c4, e1⟩ <;>
+    rcases stepWith_cases lockNext s2 a with ⟨d1, e2⟩ | ⟨d1, d2, e2⟩ | ⟨d1, d2, d3, e2⟩ |
+      ⟨d1, d2, d3, d4, e2⟩ | ⟨d1, d2, d3, d4, e2⟩ <;>
+    rw [e1, e2] <;>
+    first
+      | (exfalso; omega; done)
+      | (exfalso; rw [hfresh] at c4; rw [c4] at d4; cases d4; done)
+      | (refine ⟨rfl, ?_, ?_, ?_, ?_, ?_⟩
+         · first | exact hs | rfl
+         · first | exact hfc | rfl | exact hfcn
+         · first | (left; rfl; done) | (dsimp only; omega)
+         · first | (left; rfl; done) | (dsimp only; omega)
+         · first | (left; rfl; done) | (right; rfl; done) | (dsimp only; omega))
+
+theorem sim_outs (as : List Attempt) : ∀ {t : Int} {s1 s2 : Totp}, Sim t s1 s2 → NonDecrA t as →
+    outs step s1 as = outs step s2 as := by
+  induction as with
+  | nil => intro _ _ _ _ _; rfl
+  | cons a as ih =>
+    intro t s1 s2 h hnd
+    obtain ⟨ho, hs⟩ := sim_step a h hnd.1
+    simp only [outs, ho]
+    rw [ih hs hnd.2]
+
+end KM.RateLimit
